@@ -18,7 +18,7 @@ RULE = ('scenario = tasks run with asyncio (concurrently), each task a sequence 
         'invocations — more than any per-core limit lets run at once —, through ONE decorated function per callee kind (a module-level '
         '@in_subprocess def) and through calculate_in_subprocess; SEVERAL EVENT LOOPS one after the other in the same interpreter (2-4 '
         'asyncio.run rounds per scenario, wide and small, mixed callee kinds, fd numbers and decorated functions re-used from loop to loop): '
-        'every invocation of every round must get its own result; GATED callees (the callee waits for a multiprocess.Event that the parent sets as soon as '
+        'every invocation of every round must get its own result; GATED callees (the callee waits for an event — a pipe the parent writes to —  that the parent sets as soon as '
         'given other invocations have handed over their result — relative durations fixed by design, no timing): an invocation whose child dies without a '
         'result (every death kind) among 1-12 siblings started in the same loop iteration that outlive it (before / between / after them), 36+ pending long '
         'invocations (more than any default thread pool has workers) that wait for a short one started after them; enumerated families + seeded random mixes '
@@ -26,14 +26,48 @@ RULE = ('scenario = tasks run with asyncio (concurrently), each task a sequence 
         'watchdog 4.5 s per event loop (HANG), process group killed afterwards; LONG callees (0.5-0.7 s; every way an invocation can end, sync / async, both '
         'forms, alone / concurrent / sequential) carry the ticker criterion of the non-blocking clause, judged relative to a control ticker measured in the same '
         'runner process; every suspected failure is re-run alone up to 3 times with 3 x longer limits and counts only if it shows every time.  '
+        'HELD DESCRIPTORS (descriptor numbers are the environment\'s choice): the process holds N OTHER descriptors open while an event loop runs — N = 1100 / 3000: '
+        'every descriptor the library opens (pipe ends, child sentinels, the loop\'s own) has a number >= FD_SETSIZE = 1024; N = 1000 / 1008 with 14 concurrent '
+        'invocations: the numbers cross FD_SETSIZE in the middle of the loop; different N per event loop of one interpreter (0, 1100, 200); thorough: 110 pending '
+        'invocations whose descriptors climb over FD_SETSIZE by themselves (3 per pending invocation), random N around the boundary and far above — every way an '
+        'invocation can end, both forms, sync / async, alone / concurrent / one after the other (numbers re-used) / gated / LONG (ticker).  '
+        'CALLEE SHAPES (what kind of callable is handed to the library and with which arguments it is called; the finite space shape x {sync, async} x '
+        '{@in_subprocess, calculate_in_subprocess} is enumerated — quick: packed into concurrent scenarios + every mismatching shape alone, thorough: every '
+        'combination alone with a returning and a raising callee): callables whose call signature differs from what inspect.signature reports (it follows __wrapped__ '
+        'and honours __signature__) — pedantic\'s own @rename_kwargs called with the alias, functools.wraps decorators that consume a keyword / a leading positional '
+        'argument of their own or supply an argument themselves, a function whose __signature__ claims fewer parameters; near misses where both agree — the same '
+        'decorators called with the declared names, a pass-through wraps decorator, a wider __signature__, functools.partial, a bound method, a callable object; and '
+        'calls that really do not fit the callable (unknown keyword, missing keyword, also behind a __signature__ that would accept them): the TypeError of the call is '
+        'what the function raises, so that class is what the caller must get.  Every shaped callable is also called DIRECTLY in the runner with the same arguments '
+        'and the awaited outcome is compared with that.  '
         'non-trivial = more than one invocation or a callee '
         'that does not simply return')
 EXHAUSTIVE = {'quick': False, 'thorough': False}
 ASSUMPTIONS = [
+    'descriptor numbers: in the model a new pipe gets ANY two numbers that are not in use by the invocations (GStep.parent i r w — every theorem is about all such '
+    'runs; pipe_gets_any_free_descriptors), and each invocation remembers on which side of FD_SETSIZE its read end lies (St.rxHigh); the instruction the translator '
+    'emits for the readiness test says HOW readiness is tested — `rx.poll()` (Connection.poll: multiprocess waits with selectors.PollSelector, any number) = pollWait, a '
+    'zero-timeout select.select([rx], [], [], 0) = selectWait (raises for a number >= FD_SETSIZE), anything else is not translated (Skip = broken obligation).  The '
+    'driver predicts a scenario with the kernel\'s rule (lowest free number) above Sched.held descriptors; the exact numbers of the real process (standard streams, '
+    'the event loop\'s own descriptors, child sentinels) are not modelled — scenarios are either clearly below FD_SETSIZE, clearly above (held >= 1100), or crossing, '
+    'and on the unchanged tree the outcome does not depend on the numbers at all (readiness_by_connection_poll).  Needs RLIMIT_NOFILE (hard) above the number of held '
+    'descriptors: the runner raises the soft limit; where the hard limit is too low it holds as many as it can get and the evidence says how many scenarios reached FD_SETSIZE',
+    'callee shapes: the model takes of a call only whether the arguments fit what the callable accepts (Call.fits; if not, the child raises the TypeError of the call: '
+    'Callee.raiseExc) — whether they fit what inspect.signature reports (Call.sigFits) is passed to the driver and read by nothing, because the parent side uses the '
+    'callee and the arguments for nothing but passing them on (generated fact calleeTouchedInParent = [], theorem callee_and_arguments_only_passed_on; '
+    'faithful_result_whatever_introspection_reports).  The TypeError of a call that does not fit is compared by class only (never by wording)',
     'PARTIAL: real OS schedules cannot be enumerated from user space — the schedule quantifier is discharged on the protocol model (all interleavings, proved) and sampled on the real library through quantised callee durations',
     'pickling (dill) of arguments/results and fork() of a process that has threads are outside the model; an unpicklable result is modelled as "the child ends inside send"',
-    'cancellation of the awaiting task is not modelled',
-    'fork inheritance of other invocations\' pipe ends is not modelled: with the current statement order Pipe→start→tx.close contains no await, so no other fork can happen while a write end is open in the parent — read off the source on every run (generated fact awaitsWhileWriteEndOpen, theorem no_await_while_write_end_open) and exercised by the gated scenarios (a child that dies without a result among siblings that outlive it)',
+    'cancellation of the awaiting task IS modelled: the environment step `cancel` (GStep.cancel, enabled whenever the coroutine is suspended at `await event.wait()` — '
+    'also when the result has arrived meanwhile) raises CancelledError there; what the program does with it is read off the source (Instr.onCancel: `except Exception` '
+    'does not catch it, `except BaseException` and `finally` do; `process.terminate()` / `.kill()` = instruction terminate).  Real runs: task.cancel() and asyncio.wait_for '
+    'on invocations whose callee ends only after the invocation itself has (gated on its own invocation — no timing): the caller must get the cancellation, and right '
+    'after that await no child of the invocation may exist (running or zombie).  A cancellation that arrives while the coroutine is NOT suspended (asyncio delivers it at '
+    'the next await; the function has only one) and a cancellation before the coroutine has started at all (nothing of the library has run) are outside',
+    'fork inheritance of other invocations\' pipe ends is modelled behind a generated fact: `start` gives the new child a copy of every write end that is open in the parent '
+    '(St.foreignTx / Loc.heirs: no EOF for the owner while such a child lives) WHEN the coroutine can be suspended between Pipe() and tx.close() (awaitsWhileWriteEndOpen ≠ [], '
+    'inheritOthers); with the current statement order it cannot, inheritOthers_false is proved from the generated list and every theorem about N invocations uses it (they do not '
+    're-prove otherwise); witness inherited_write_end_blocks_eof; exercised by the gated scenarios (a child that dies without a result among siblings that outlive it)',
     'process.join() blocks the event loop from the end of the child\'s send until the child has exited; the model states that this is the only synchronous wait, it does not bound its duration',
     'event loop = asyncio on selectors.EpollSelector (Linux): a closed fd silently leaves the kernel interest set but stays in the selector map',
     'a child that lingers after its send (non-daemon thread, slow exit handler) keeps the parent inside the synchronous process.join() for that long, and the '
@@ -76,13 +110,14 @@ CONFIRM_SCALE = 3       # … with watchdog and hard limit this many times longe
 CONTROL_RERUNS = 8      # scenarios whose control was starved are run again alone (once or twice), at most this many per run
 
 RUNNER = r'''
-import asyncio, gc, json, os, signal, sys, time, threading, fcntl, termios, struct
+import asyncio, functools, gc, inspect, json, os, resource, select, signal, sys, time, threading, fcntl, termios, struct
 try:        # report the library lines this process (and the children it forks) executes to the check that started it (core.LineCoverage)
     import core as _core
     _lc = _core.linecov_child()
 except Exception:
     _lc = None
 from pedantic.decorators.fn_deco_in_subprocess import in_subprocess, calculate_in_subprocess
+from pedantic.decorators.fn_deco_rename_kwargs import rename_kwargs, Rename
 try:
     from multiprocess.connection import Connection
     import multiprocess, multiprocess.util
@@ -91,6 +126,7 @@ except ImportError:
 
 SC = json.loads(sys.argv[1])
 Q = SC['q']; WATCHDOG = SC['watchdog']
+CANCEL_DELAY = SC.get('cancel_delay', 0.15)      # s: how long the caller lets an invocation run before it cancels it / its timeout
 PARENT = os.getpid()
 TICK = 0.01
 
@@ -236,7 +272,37 @@ def finish(spec, idx, tag):
     raise RuntimeError(kind)
 
 
-GATES = {}      # invocation index -> multiprocess.Event (created before anything is forked); the callee of that invocation waits for it
+class Gate:
+    """an event the parent sets and children wait for, made of a pipe: setting it never waits for anybody (a `multiprocess.Event` waits in
+    `set()` for every sleeper to wake up — for ever, when a sleeping child has been killed meanwhile, as the child of a cancelled
+    invocation is) and waiting uses poll(), which takes any descriptor number"""
+
+    def __init__(self):
+        self.r, self.w = os.pipe()
+        self.opened = False
+
+    def wait(self, seconds):
+        p = select.poll()
+        p.register(self.r, select.POLLIN | select.POLLHUP)
+        end = time.monotonic() + seconds
+        while time.monotonic() < end:
+            try:
+                if p.poll(1000 * max(0.0, end - time.monotonic())):
+                    return True
+            except InterruptedError:
+                pass
+        return False
+
+    def is_set(self):
+        return self.opened
+
+    def set(self):
+        if not self.opened:
+            self.opened = True
+            os.write(self.w, b'x')       # never read: the pipe stays readable for every waiter
+
+
+GATES = {}      # invocation index -> Gate (created before anything is forked); the callee of that invocation waits for it
 
 
 def wait_gate(idx):
@@ -291,18 +357,136 @@ def make(spec):
     return callee
 
 
+# ---- callee SHAPES: what kind of callable is handed to in_subprocess / calculate_in_subprocess, and with which arguments it is called.
+# The base callee is `callee(idx, *, tag)`; it reports (idx, pid, tag, payload) and the classification accepts that only with
+# tag == 't<idx>': a shape that is called with other arguments than the base callee declares gets them there exactly when every layer
+# passed them on unchanged.  For several shapes what `inspect.signature` reports about the callable (it follows `__wrapped__` and honours
+# `__signature__`) is NOT what the callable accepts — `sigfits` says whether the reported signature accepts the call that is made.
+#   name: (async callee possible, the call fits the callable, the call fits the reported signature)
+SHAPES = {
+    'plain':          (True, True, True),      # callee(i, tag='t<i>')
+    'rename':         (False, True, False),    # pedantic's own @rename_kwargs(label -> tag), called with the alias: f(i, label='t<i>')
+    'rename-plain':   (False, True, True),     # … called with the declared name
+    'extra-kw':       (True, True, False),     # functools.wraps decorator that consumes a keyword of its own: f(i, tag='t', suffix='<i>')
+    'extra-kw-unused': (True, True, True),     # … called without it
+    'extra-pos':      (True, True, False),     # wraps decorator that takes a leading positional argument: f('t', i, tag='<i>')
+    'inject':         (True, True, False),     # wraps decorator that supplies the keyword itself: f(i)
+    'passthru':       (True, True, True),      # wraps decorator (*a, **k) that changes nothing
+    'sig-narrow':     (True, True, False),     # a function whose __signature__ claims (idx) only: f(i, tag='t<i>')
+    'sig-wide':       (True, True, True),      # a function whose __signature__ claims (*a, **k)
+    'partial':        (True, True, True),      # functools.partial(callee, tag='t<i>'): f(i)
+    'method':         (True, True, True),      # a bound method
+    'callable-object': (False, True, True),    # an object with __call__
+    'misfit-kw':      (True, False, False),    # plain callee, called with a keyword it does not take: TypeError is what the function raises
+    'misfit-missing': (True, False, False),    # plain callee, called without the required keyword
+    'misfit-sig-ok':  (True, False, True),     # __signature__ claims (*a, **k), the function does not take the keyword that is passed
+}
+
+
+def shaped(callee, spec, idx):
+    """the callable handed to the library for this invocation"""
+    sh = spec.get('shape', 'plain')
+    is_async = spec['async']
+    if sh in ('plain', 'misfit-kw', 'misfit-missing'):
+        return callee
+    if sh in ('rename', 'rename-plain'):
+        return rename_kwargs(Rename(from_='label', to='tag'))(callee)
+    if sh in ('extra-kw', 'extra-kw-unused'):
+        if is_async:
+            @functools.wraps(callee)
+            async def wrapper(*args, suffix='', **kw):
+                kw['tag'] = kw['tag'] + suffix
+                return await callee(*args, **kw)
+        else:
+            @functools.wraps(callee)
+            def wrapper(*args, suffix='', **kw):
+                kw['tag'] = kw['tag'] + suffix
+                return callee(*args, **kw)
+        return wrapper
+    if sh == 'extra-pos':
+        if is_async:
+            @functools.wraps(callee)
+            async def wrapper(prefix, *args, **kw):
+                kw['tag'] = prefix + kw['tag']
+                return await callee(*args, **kw)
+        else:
+            @functools.wraps(callee)
+            def wrapper(prefix, *args, **kw):
+                kw['tag'] = prefix + kw['tag']
+                return callee(*args, **kw)
+        return wrapper
+    if sh == 'inject':
+        if is_async:
+            @functools.wraps(callee)
+            async def wrapper(*args, **kw):
+                return await callee(*args, tag='t%d' % args[0], **kw)
+        else:
+            @functools.wraps(callee)
+            def wrapper(*args, **kw):
+                return callee(*args, tag='t%d' % args[0], **kw)
+        return wrapper
+    if sh == 'passthru':
+        if is_async:
+            @functools.wraps(callee)
+            async def wrapper(*args, **kw):
+                return await callee(*args, **kw)
+        else:
+            @functools.wraps(callee)
+            def wrapper(*args, **kw):
+                return callee(*args, **kw)
+        return wrapper
+    if sh in ('sig-narrow', 'sig-wide', 'misfit-sig-ok'):
+        P = inspect.Parameter
+        callee.__signature__ = inspect.Signature([P('idx', P.POSITIONAL_OR_KEYWORD)] if sh == 'sig-narrow' else
+                                                 [P('a', P.VAR_POSITIONAL), P('k', P.VAR_KEYWORD)])
+        return callee
+    if sh == 'partial':
+        return functools.partial(callee, tag='t%d' % idx)
+    if sh == 'method':
+        class Worker:
+            if is_async:
+                async def run(self, i, *, tag):
+                    return await callee(i, tag=tag)
+            else:
+                def run(self, i, *, tag):
+                    return callee(i, tag=tag)
+        return Worker().run
+    if sh == 'callable-object':
+        class Job:
+            def __call__(self, i, *, tag):
+                return callee(i, tag=tag)
+        return Job()
+    raise RuntimeError(sh)
+
+
+def call_of(spec, i):
+    """(args, kwargs) the invocation is made with"""
+    sh = spec.get('shape', 'plain')
+    if sh == 'rename':
+        return (i,), {'label': 't%d' % i}
+    if sh == 'extra-kw':
+        return (i,), {'tag': 't', 'suffix': '%d' % i}
+    if sh == 'extra-pos':
+        return ('t', i), {'tag': '%d' % i}
+    if sh in ('inject', 'partial', 'misfit-missing'):
+        return (i,), {}
+    if sh in ('misfit-kw', 'misfit-sig-ok'):
+        return (i,), {'tag': 't%d' % i, 'verbose': True}
+    return (i,), {'tag': 't%d' % i}
+
+
 SHARED = {}
 
 
-def target(spec):
+def target(spec, idx=0):
     """what an invocation awaits: `in_subprocess(f)` / `calculate_in_subprocess` + f.  spec['share']: the function is decorated ONCE (as a
     module-level `@in_subprocess def work` is) and that one wrapper serves every invocation with the same callee — in every event loop"""
     if not spec.get('share'):
-        f = make(spec)
+        f = shaped(make(spec), spec, idx)
         return in_subprocess(f) if spec['form'] == 'deco' else (lambda *a, **k: calculate_in_subprocess(f, *a, **k))
-    key = json.dumps([spec[k] for k in ('callee', 'dur', 'size', 'async', 'form')] + [spec.get(k) for k in ('exc', 'base', 'linger')])
+    key = json.dumps([spec[k] for k in ('callee', 'dur', 'size', 'async', 'form')] + [spec.get(k) for k in ('exc', 'base', 'linger', 'shape')])
     if key not in SHARED:
-        f = make(spec)
+        f = shaped(make(spec), spec, idx)
         SHARED[key] = in_subprocess(f) if spec['form'] == 'deco' else (lambda *a, **k: calculate_in_subprocess(f, *a, **k))
     return SHARED[key]
 
@@ -334,6 +518,9 @@ def open_conns():
 
 
 def classify(spec, idx, kind, val):
+    if kind == 'cancelled':
+        return ['cancelled'], None
+
     def ours(e, callee_kind):
         a = payload_of(e)
         if a is None or not isinstance(e, Exception):
@@ -354,6 +541,10 @@ def classify(spec, idx, kind, val):
             return ['ret', ours(r, ('retexc',))[0]], ours(r, ('retexc',))[1]
         return ['retother'], None
     e = val
+    if spec.get('shape', 'plain').startswith('misfit'):
+        # the arguments do not fit the callable: run with the same arguments the function raises the TypeError of the call — that class is
+        # what the caller must get (the wording is not compared)
+        return (['exc', idx] if type(e) is TypeError and payload_of(e) is None else ['other', type(e).__name__]), None
     # the callee's own exception first (it may be a ChildProcessError): recognised by its payload, its class name, the names along its MRO
     # (dill re-creates classes defined in __main__ by value, the class object is not preserved: pickling is not modelled) and its args
     if ours(e, ('exc',)):
@@ -368,11 +559,16 @@ def direct_calls():
     scenario exists): what they return here is what the property says the awaited invocation yields"""
     out = {}
     for i, spec in enumerate(SC['invs']):
-        if spec['callee'][0] != 'spawn':
+        sh = spec.get('shape', 'plain')
+        if not (spec['callee'][0] == 'spawn' or sh != 'plain' and (spec['callee'][0] in ('ret', 'exc', 'retexc') or sh.startswith('misfit'))) \
+                or spec.get('gate'):
             continue
-        f = make(spec)
+        # (a shape other than 'plain': this also checks the harness's own decorators — called directly the shaped callable must give the
+        #  base callee's outcome, else the scenario itself is wrong)
+        f = shaped(make(spec), spec, i)
+        a, k = call_of(spec, i)
         try:
-            r = asyncio.run(f(i, tag='t%d' % i)) if spec['async'] else f(i, tag='t%d' % i)
+            r = asyncio.run(f(*a, **k)) if spec['async'] else f(*a, **k)
             kind, val = 'ret', r
         except BaseException as e:
             kind, val = 'exc', e
@@ -381,7 +577,33 @@ def direct_calls():
     return out
 
 
+HELD = []
+HELD_SHORT = [False]
+
+
+def hold(n):
+    """the surrounding program holds `n` other descriptors open (files, sockets — here: /dev/null) while the next event loop runs: they
+    take the lowest free numbers, so everything opened afterwards (the event loop's own descriptors, the pipes of the invocations, the
+    sentinels of their children) lies above them — with n >= 1024 beyond FD_SETSIZE"""
+    soft, hard = resource.getrlimit(resource.RLIMIT_NOFILE)
+    want = n + 4096
+    if soft != resource.RLIM_INFINITY and soft < want:
+        resource.setrlimit(resource.RLIMIT_NOFILE, (want if hard == resource.RLIM_INFINITY else min(want, hard), hard))
+    while len(HELD) > n:
+        os.close(HELD.pop())
+    try:
+        while len(HELD) < n:
+            HELD.append(os.dup(HELD[0]) if HELD else os.open(os.devnull, os.O_RDONLY))
+    except OSError:
+        # the machine does not let this process have that many descriptors (hard RLIMIT_NOFILE): hold what it allows and leave room for the
+        # scenario itself — reported (held_short), never a failure of the library
+        HELD_SHORT[0] = True
+        for _ in range(min(len(HELD), 256)):
+            os.close(HELD.pop())
+
+
 ROUNDS = SC.get('rounds') or [SC['tasks']]       # one event loop (asyncio.run) per round, one after the other
+HELD_PER_ROUND = SC.get('held') or [0] * len(ROUNDS)
 N = len(SC['invs'])
 res = [None] * N
 ticks = [0]
@@ -396,7 +618,7 @@ async def main(rno, chains):
     loop = asyncio.get_running_loop()
     gc.collect()
     if rno == 0:
-        BASE.update({'fds': nfds(), 'children': len(children()), 'conns': open_conns()})
+        BASE.update({'fds': nfds(), 'children': len(children()), 'conns': open_conns(), 'held': len(HELD)})
     base_sel = len(loop._selector.get_map())
     last = [time.monotonic()]
 
@@ -417,16 +639,36 @@ async def main(rno, chains):
     async def chain(ids):
         for i in ids:
             spec = SC['invs'][i]
-            call = target(spec)
+            call = target(spec, i)
+            a, k = call_of(spec, i)
             t0, k0 = time.monotonic(), ticks[0]
             res[i] = {'state': 'pending'}
+            cn = spec.get('cancel')
+            aw = None
             try:
-                r = await call(i, tag='t%d' % i)
+                if not cn:
+                    r = await call(*a, **k)
+                elif cn['how'] == 'timeout':
+                    # the caller gives the invocation a time limit; its callee ends only when the caller says so, i.e. never in time
+                    r = await asyncio.wait_for(call(*a, **k), timeout=CANCEL_DELAY)
+                else:
+                    # the caller runs the invocation as a task of its own and cancels that task while the callee is still working:
+                    # after a moment (the coroutine has started its child and is suspended) and once the invocations it is to
+                    # outlive have handed over their results
+                    aw = asyncio.ensure_future(call(*a, **k))
+                    await asyncio.sleep(CANCEL_DELAY)
+                    while not all(res[j] is not None and res[j]['state'] == 'done' for j in cn['after']):
+                        await asyncio.sleep(0.005)
+                    aw.cancel()
+                    r = await aw
                 kind, val = 'ret', r
-            except asyncio.CancelledError:
-                raise
+            except asyncio.CancelledError as e:
+                if aw is not None and aw.cancelled():
+                    kind, val = 'cancelled', e
+                else:
+                    raise
             except BaseException as e:
-                kind, val = 'exc', e
+                kind, val = ('cancelled', e) if cn and cn['how'] == 'timeout' and type(e) is asyncio.TimeoutError and payload_of(e) is None else ('exc', e)
             left = excess_children(i)
             out, pid = classify(spec, i, kind, val)
             res[i] = {'state': 'done', 'out': out, 'pid': pid, 'wall': time.monotonic() - t0, 'ticks': ticks[0] - k0, 'val': val, 'left': left}
@@ -472,11 +714,12 @@ async def main(rno, chains):
                 r.pop('val', None)
         del done, pending, tasks, r
         gc.collect()
-        fd_after = nfds() - BASE['fds']
+        fd_after = nfds() - BASE['fds'] - (len(HELD) - BASE['held'])
     rep = {'out': outs, 'pid_differs': [None if p is None else (p != PARENT) for p in pids], 'wall': walls, 'ticks': tks,
            'order': order, 'hang': hang, 'fd_delta': fd_after, 'children_left': AT_END['kids'],
            'open_conns': AT_END['conns'], 'selector_delta': AT_END['sel'], 'errors': errors,
-           'left_after_await': lefts, 'direct': DIRECT, 'stall': round(stall[0], 3), 'rounds_run': rno + 1, 'control': CONTROL}
+           'left_after_await': lefts, 'direct': DIRECT, 'stall': round(stall[0], 3), 'rounds_run': rno + 1, 'control': CONTROL,
+           'held': len(HELD), 'held_short': HELD_SHORT[0], 'max_fd': max(int(f) for f in os.listdir('/proc/self/fd'))}
     sys.stdout.write(json.dumps(rep) + '\n')
     sys.stdout.flush()
     os._exit(0)
@@ -505,17 +748,29 @@ async def control(seconds):
 
 for _i, _spec in enumerate(SC['invs']):
     if _spec.get('gate'):
-        GATES[_i] = multiprocess.Event()
+        GATES[_i] = Gate()
 CONTROL = asyncio.run(control(SC['control'])) if SC.get('control') else None
 DIRECT = direct_calls()
 for _rno, _chains in enumerate(ROUNDS):
+    hold(HELD_PER_ROUND[_rno] if _rno < len(HELD_PER_ROUND) else 0)
     asyncio.run(main(_rno, _chains))
 '''
 
 
 # ------------------------------------------------------------------------------------------------ scenarios
 
-def inv(callee, dur=1, size=16, big=None, is_async=False, form='deco', exc='ValueError', base='sysexit', linger=1.5, key=None, gate=None):
+# callee shapes (see SHAPES in the runner): name -> (an async callee is possible, the call fits the callable, the call fits what inspect.signature reports)
+SHAPES = {'plain': (True, True, True), 'rename': (False, True, False), 'rename-plain': (False, True, True), 'extra-kw': (True, True, False),
+          'extra-kw-unused': (True, True, True), 'extra-pos': (True, True, False), 'inject': (True, True, False), 'passthru': (True, True, True),
+          'sig-narrow': (True, True, False), 'sig-wide': (True, True, True), 'partial': (True, True, True), 'method': (True, True, True),
+          'callable-object': (False, True, True), 'misfit-kw': (True, False, False), 'misfit-missing': (True, False, False),
+          'misfit-sig-ok': (True, False, True)}
+SHAPES_MISMATCH = [k for k, v in SHAPES.items() if v[1] and not v[2]]      # accepted by the callable, rejected by the reported signature
+FD_SETSIZE = 1024
+HELD_HIGH = 1100        # other descriptors held by the process: every descriptor opened afterwards has a number >= FD_SETSIZE
+
+
+def inv(callee, dur=1, size=16, big=None, is_async=False, form='deco', exc='ValueError', base='sysexit', linger=1.5, key=None, gate=None, shape=None, cancel=None, cancel_after=()):
     kind = callee[0]
     if kind == 'midsend':
         size = 1 << 20
@@ -532,12 +787,37 @@ def inv(callee, dur=1, size=16, big=None, is_async=False, form='deco', exc='Valu
         d['key'] = key                # a name other invocations of the scenario refer to
     if gate:
         d['gate_keys'] = list(gate)   # the callee ends only after the invocations with these keys have handed over their result
+    if cancel:
+        # the caller cancels the task that awaits this invocation ('cancel': task.cancel(); 'timeout': asyncio.wait_for) while the callee is
+        # still working — the callee ends only after the invocation itself has (it is gated on its own invocation): no timing involved
+        assert cancel in ('cancel', 'timeout') and callee != ['death', 'beforeRun'] and kind not in ('spawn', 'linger', 'midsend') and not (cancel == 'timeout' and cancel_after)
+        d['cancel'] = {'how': cancel, 'after_keys': list(cancel_after)}
+    if shape and shape != 'plain':
+        assert shape in SHAPES and (SHAPES[shape][0] or not is_async), shape
+        d['shape'] = shape            # what kind of callable is handed to the library and how it is called
     return d
 
 
-def scenario(tasks, origin='', rounds=None):
+def model_inv(s):
+    """what the driver gets of an invocation"""
+    d = {'callee': s['callee'], 'big': s['big'], 'dur': s['dur'], 'pred': s['pred'], 'deco': s['form'] == 'deco', 'async': s['async']}
+    if s.get('gate'):
+        d['gate'] = s['gate']
+    if s.get('cancel'):
+        d['cancel'] = s['cancel']['after']
+    if s.get('shape'):
+        _, fits, sigfits = SHAPES[s['shape']]
+        if not fits:
+            d['fits'] = False
+        if not sigfits:
+            d['sigfits'] = False
+    return d
+
+
+def scenario(tasks, origin='', rounds=None, held=None):
     """tasks: list of lists of inv dicts (the chains of awaited invocations that run concurrently) -> case.
-    rounds: list of such task lists — one event loop (`asyncio.run`) per round, one after the other in the same interpreter"""
+    rounds: list of such task lists — one event loop (`asyncio.run`) per round, one after the other in the same interpreter.
+    held: number of OTHER descriptors the process holds open while the event loop runs (one number, or one per round)"""
     invs, tl, rl, sizes = [], [], [], []
     for rtasks in (rounds if rounds is not None else [tasks]):
         n0, chains = len(invs), []
@@ -561,14 +841,27 @@ def scenario(tasks, origin='', rounds=None):
                 for j in invs[i]['gate']:
                     k = j
                     while k is not None:
-                        assert 'gate_keys' not in invs[k], 'a gate on a gated invocation'
+                        assert 'gate_keys' not in invs[k] and 'cancel' not in invs[k], 'a gate on a gated invocation'
                         k = invs[k]['pred']
-    c = {'invs': [{'callee': s['callee'], 'big': s['big'], 'dur': s['dur'], 'pred': s['pred']} | ({'gate': s['gate']} if s.get('gate') else {})
-                  for s in invs]}
+            if 'cancel' in invs[i]:
+                invs[i]['cancel'] = dict(invs[i]['cancel'], after=sorted(keys[k] for k in invs[i]['cancel']['after_keys']))
+                invs[i]['gate'] = sorted(set(invs[i].get('gate', [])) | {i})       # the callee outlives its own invocation
+                for j in invs[i]['cancel']['after']:
+                    k = j
+                    while k is not None:
+                        assert 'gate_keys' not in invs[k] and 'cancel' not in invs[k], 'a cancellation that waits for a gated invocation'
+                        k = invs[k]['pred']
+    c = {'invs': [model_inv(s) for s in invs]}
     x = {'invs': invs, 'tasks': tl, 'origin': origin}
     if rounds is not None and len(rl) > 1:
         c['rounds'] = sizes
         x['rounds'] = rl
+    if held:
+        hl = [held] * len(rl) if isinstance(held, int) else list(held)
+        assert len(hl) == len(rl)
+        if any(hl):
+            c['held'] = hl
+            x['held'] = hl
     firsts = [invs[ids[0]] for ids in rl[0] if ids]
     nmid = sum(1 for s in firsts if s['callee'][0] == 'midsend')
     if nmid:
@@ -618,6 +911,149 @@ def rand_inv(rng, allow_death=True, maxdur=4):
     if r < 0.93:
         return inv(rng.choice(SPAWNS), size=rng.choice([16, 4096, 70000]), **common)
     return inv(['aftersend'], size=rng.choice([16, 4096]), **common)
+
+
+def held_cases(rng, thorough):
+    """(h) the process holds OTHER descriptors open (a server with a thousand connections, a parent that opened many files — or some hundred
+    pending invocations, each of which keeps its read end and the two descriptors of its child): descriptor numbers are the environment's
+    choice, the pipe of an invocation may get numbers at or above FD_SETSIZE (1024), where select() no longer works.  Every way an
+    invocation can end, both forms, sync / async, alone / concurrent / one after the other (fd numbers re-used), numbers that cross the
+    boundary in the middle of a scenario, event loops with different numbers of held descriptors in one interpreter."""
+    out = []
+    combos = list(itertools.product([False, True], ['deco', 'func']))
+    H = HELD_HIGH
+    kinds = [['ret'], ['exc'], ['death', 'osExit'], ['base'], ['unpicklable'], ['death', 'signal'], ['aftersend'], ['retexc'], ['death', 'beforeRun'], ['spawn', 'func']]
+    for k, c in enumerate(kinds if thorough else kinds[:5]):
+        is_async, form = combos[k % 4]
+        out.append(scenario([[inv(c, dur=k % 2, is_async=is_async, form=form, size=(16, 70000)[k % 2])]], 'held-single', held=H))
+    for is_async, form in (combos if thorough else combos[1:3]):
+        out.append(scenario([[inv(['ret'], dur=1, is_async=is_async, form=form)]], 'held-single', held=(H, 3000)[is_async]))
+    out.append(scenario([[inv(['ret'], dur=2)], [inv(['exc'], dur=1, is_async=True, form='func')], [inv(['death', 'osExit'], dur=1)], [inv(['ret'], dur=0, size=70000, form='func')]],
+                        'held-concurrent', held=H))
+    out.append(scenario([[inv(['ret'], dur=0), inv(['death', 'signal'], dur=0, form='func'), inv(['ret'], dur=1, is_async=True)]], 'held-sequence', held=H))
+    # the numbers cross FD_SETSIZE in the middle: the first invocations of the loop get numbers below it, the later ones above
+    n_cross = 14
+    out.append(scenario(wide(n_cross, kinds=[['ret'], ['exc'], ['ret'], ['death', 'osExit']], dur=[1, 2]), 'held-crossing', held=FD_SETSIZE - 16))
+    out.append(scenario(wide(n_cross, form='func', share=False, is_async=True, dur=[2, 1, 0]), 'held-crossing', held=FD_SETSIZE - 24))
+    # several event loops, the program opens / closes other descriptors in between
+    out.append(scenario(None, 'held-rounds', rounds=[[[inv(['ret'], dur=0)], [shared(inv(['ret'], dur=1))]],
+                                                     [[inv(['ret'], dur=1, form='func')], [shared(inv(['ret'], dur=1))], [inv(['death', 'osExit'], dur=0)]],
+                                                     [[shared(inv(['ret'], dur=1))], [inv(['exc'], dur=0, is_async=True)]]], held=[0, H, 200]))
+    out.append(scenario(None, 'held-rounds', rounds=[wide(3), wide(3)], held=[H, 0]))
+    # gated: an invocation whose child dies without a result among siblings that outlive it, all above FD_SETSIZE
+    out.append(scenario([[inv(['ret'], dur=0, gate=['A'])], [inv(['death', 'osExit'], dur=0, key='A', form='func')], [inv(['exc'], dur=0, gate=['A'], is_async=True)]],
+                        'held-gated', held=H))
+    # a LONG callee: the ticker clause above FD_SETSIZE
+    out.append(scenario([[inv(['ret'], dur=LONG_DUR, form='func')]], 'held-long', held=H))
+    if thorough:
+        # some hundred invocations pending at once, no other descriptors held: the numbers climb by themselves (3 per pending invocation)
+        out.append(scenario(wide(110, dur=[3, 2]), 'held-crossing-wide', held=FD_SETSIZE - 3 * 60))
+        for k in range(30):
+            h = rng.choice([1, 7, 200, FD_SETSIZE - 40, FD_SETSIZE - 9, FD_SETSIZE - 4, FD_SETSIZE, FD_SETSIZE + 1, H, 2000, 5000])
+            tasks = [[rand_inv(rng, maxdur=2) for _ in range(1 if rng.random() < 0.6 else 2)] for _ in range(rng.randint(1, 5))]
+            out.append(scenario(tasks, 'held-random', held=h))
+        for k in range(8):
+            nr = rng.randint(2, 3)
+            out.append(scenario(None, 'held-random-rounds', rounds=[[[rand_inv(rng, maxdur=1) | ({'share': True} if rng.random() < 0.4 else {})]
+                                                                      for _ in range(rng.randint(1, 3))] for _ in range(nr)],
+                                held=[rng.choice([0, 50, FD_SETSIZE - 5, H, 1500]) for _ in range(nr)]))
+    else:
+        for k in range(2):
+            out.append(scenario([[rand_inv(rng, maxdur=1)] for _ in range(rng.randint(1, 3))], 'held-random', held=rng.choice([FD_SETSIZE - 5, FD_SETSIZE, H, 2000])))
+    return out
+
+
+def cancel_cases(rng, thorough):
+    """(j) CANCELLATION: the task that awaits an invocation is cancelled (task.cancel()) or runs out of time (asyncio.wait_for) while the
+    callee is still working — the callee ends only after the invocation itself has (gated on its own invocation: no timing).  The
+    caller must get the cancellation at once, and right after that await no child of the invocation may be left (running or un-reaped),
+    at the end no descriptor, no Connection, no selector entry.  Both ways of cancelling, both forms, sync / async callee, every callee
+    kind that can wait; alone, next to ordinary invocations, after another invocation has finished, followed by an ordinary invocation
+    through the same chain (numbers re-used), many at once, in a later event loop, above FD_SETSIZE."""
+    out = []
+    combos = list(itertools.product([False, True], ['deco', 'func']))
+    for k, (how, (is_async, form)) in enumerate(itertools.product(['cancel', 'timeout'], combos)):
+        if thorough or k in (0, 3, 5, 6):
+            out.append(scenario([[inv(['ret'], dur=0, cancel=how, is_async=is_async, form=form)]], 'cancel-single'))
+    kinds = [['exc'], ['death', 'osExit'], ['unpicklable'], ['base'], ['death', 'signal'], ['aftersend'], ['retexc']]
+    for k, c in enumerate(kinds if thorough else kinds[:2]):
+        out.append(scenario([[inv(c, dur=0, cancel=('cancel', 'timeout')[k % 2], is_async=(k % 3 == 1), form=('func', 'deco')[k % 2], size=(16, 70000)[k % 2])]], 'cancel-single'))
+    out.append(scenario([[inv(['ret'], dur=1)], [inv(['ret'], dur=0, cancel='cancel', form='func')], [inv(['exc'], dur=2, is_async=True)],
+                         [inv(['ret'], dur=0, cancel='timeout', is_async=True)]], 'cancel-concurrent'))
+    out.append(scenario([[inv(['ret'], dur=2, key='A')], [inv(['ret'], dur=0, cancel='cancel', cancel_after=['A'])], [inv(['death', 'osExit'], dur=1, key='B')],
+                         [inv(['exc'], dur=0, cancel='cancel', cancel_after=['A', 'B'], form='func', is_async=True)]], 'cancel-after'))
+    out.append(scenario([[inv(['ret'], dur=0, cancel='cancel'), inv(['ret'], dur=1), inv(['ret'], dur=0, cancel='timeout', form='func'), inv(['exc'], dur=0)]],
+                        'cancel-sequence'))
+    out.append(scenario([[shared(inv(['ret'], dur=0, cancel=('cancel', 'timeout')[j % 2]))] for j in range(10)] + [[inv(['ret'], dur=1)], [inv(['ret'], dur=3, form='func')]],
+                        'cancel-wide'))
+    out.append(scenario(None, 'cancel-rounds', rounds=[[[inv(['ret'], dur=0, cancel='cancel')], [inv(['ret'], dur=1)]],
+                                                       [[inv(['ret'], dur=1, form='func')], [inv(['ret'], dur=0, cancel='timeout', form='func')]],
+                                                       [[shared(inv(['ret'], dur=0))]]], held=[0, HELD_HIGH, 0]))
+    out.append(scenario([[inv(['ret'], dur=0, cancel='cancel', shape='rename')], [inv(['ret'], dur=0, cancel='timeout', shape='extra-kw', is_async=True)]], 'cancel-shapes', held=HELD_HIGH))
+    for k in range(30 if thorough else 3):
+        tasks = [[rand_inv(rng, maxdur=2) for _ in range(1 if rng.random() < 0.6 else 2)] for _ in range(rng.randint(1, 5))]
+        some = False
+        for t in tasks:
+            for d in t:
+                if (rng.random() < 0.5 or not some) and d['callee'] != ['death', 'beforeRun'] and d['callee'][0] not in ('spawn', 'linger', 'midsend'):
+                    d['cancel'] = {'how': rng.choice(['cancel', 'timeout']), 'after_keys': []}
+                    some = True
+        out.append(scenario(tasks, 'cancel-random', held=rng.choice([0, 0, 0, HELD_HIGH])))
+    return out
+
+
+def shape_cases(rng, thorough):
+    """(i) callee SHAPES: what kind of callable is handed to @in_subprocess / calculate_in_subprocess and with which arguments it is
+    called — above all callables whose call signature differs from what introspection reports (`inspect.signature` follows `__wrapped__`
+    and honours `__signature__`): pedantic's own @rename_kwargs called with the alias, functools.wraps decorators that consume a keyword
+    / a leading positional argument of their own or supply an argument themselves, functions with a __signature__ attribute; near
+    misses: the same decorators called so that both agree, functools.partial, bound methods, callable objects; and calls that really do
+    not fit (the TypeError of the call is what the function raises, so that is what the caller must get).  The finite space shape x
+    {sync, async} x {@in_subprocess, calculate_in_subprocess} is enumerated: quick — every combination once, packed into concurrent
+    scenarios, plus each mismatching shape alone; thorough — every combination alone, with returning and raising callees."""
+    out = []
+    combos = list(itertools.product([False, True], ['deco', 'func']))
+    names = list(SHAPES)
+    # every mismatching shape alone (the smallest failing input if the parent ever looks at the signature)
+    for k, sh in enumerate(SHAPES_MISMATCH):
+        for form in (('deco', 'func') if thorough else ('deco',)):
+            is_async = SHAPES[sh][0] and k % 2 == 1
+            out.append(scenario([[inv(['ret'], dur=0, shape=sh, is_async=is_async, form=form)]], 'shape-single'))
+    # every shape x sync/async x form, concurrently in one event loop each
+    for is_async, form in combos:
+        chains = [[inv((['ret'], ['exc'])[(k + is_async) % 5 == 4], dur=k % 2, shape=sh, is_async=is_async, form=form, exc=('ValueError', 'EOFError')[k % 2])]
+                  for k, sh in enumerate(names) if SHAPES[sh][0] or not is_async]
+        out.append(scenario(chains, 'shape-all'))
+    # one after the other through the same event loop, and in two event loops, with deaths in between
+    out.append(scenario([[inv(['ret'], dur=0, shape='rename'), inv(['death', 'osExit'], dur=0, shape='extra-kw'), inv(['exc'], dur=0, shape='inject', is_async=True),
+                          inv(['ret'], dur=0, shape='misfit-kw'), inv(['ret'], dur=0, shape='sig-narrow', form='func')]], 'shape-sequence'))
+    out.append(scenario(None, 'shape-rounds', rounds=[[[inv(['ret'], dur=0, shape='extra-pos')], [inv(['ret'], dur=1, shape='partial', is_async=True)]],
+                                                      [[inv(['exc'], dur=0, shape='rename')], [inv(['ret'], dur=0, shape='callable-object', form='func')]]], held=[0, HELD_HIGH]))
+    if thorough:
+        for sh in names:
+            for is_async, form in combos:
+                if is_async and not SHAPES[sh][0]:
+                    continue
+                for c in (['ret'], ['exc']):
+                    out.append(scenario([[inv(c, dur=0, shape=sh, is_async=is_async, form=form, exc=rng.choice(EXCS + EXCS_PROTOCOL))]], 'shape-single'))
+        for k in range(30):
+            tasks = [[rand_inv(rng, maxdur=1) for _ in range(1 if rng.random() < 0.6 else 2)] for _ in range(rng.randint(1, 4))]
+            for t in tasks:
+                for d in t:
+                    sh = rng.choice(names)
+                    if d['callee'][0] not in ('midsend',) and (SHAPES[sh][0] or not d['async']) and sh != 'plain':
+                        d['shape'] = sh
+            out.append(scenario(tasks, 'shape-random', held=rng.choice([0, 0, HELD_HIGH])))
+    else:
+        for k in range(2):
+            tasks = [[rand_inv(rng, maxdur=1)] for _ in range(rng.randint(1, 3))]
+            for t in tasks:
+                for d in t:
+                    sh = rng.choice(names)
+                    if d['callee'][0] not in ('midsend',) and (SHAPES[sh][0] or not d['async']) and sh != 'plain':
+                        d['shape'] = sh
+            out.append(scenario(tasks, 'shape-random'))
+    return out
 
 
 def cases(rng, tier):
@@ -729,7 +1165,7 @@ def cases(rng, tier):
             out.append(scenario(None, 'random-rounds', rounds=[
                 [[rand_inv(rng, maxdur=2) | ({'share': True} if rng.random() < 0.5 else {}) for _ in range(1 if rng.random() < 0.7 else 2)]
                  for _ in range(rng.choice([1, 2, 3, CPUS + 1] if k % 8 == 0 else [1, 2, 3]))] for _ in range(nr)]))
-    # (g) callees that end only when the caller says so (the callee waits for a multiprocess.Event that the parent sets as soon as another
+    # (g) callees that end only when the caller says so (the callee waits for an event — a pipe the parent writes to —  that the parent sets as soon as another
     #     invocation has handed over its result): "arbitrary relative durations" with the order fixed BY DESIGN, no timing involved.
     #     g1: an invocation whose child dies without a result, started in the same loop iteration as siblings that outlive it — it must end
     #         (ChildProcessError) while they are still running (nothing of invocation A may be kept open by the children of the others);
@@ -759,6 +1195,9 @@ def cases(rng, tier):
         others = [[rand_inv(rng, maxdur=1) | ({'gate_keys': ['A']} if rng.random() < 0.7 else {})] for _ in range(rng.randint(1, 5))]
         pos = rng.randint(0, len(others))
         out.append(scenario(others[:pos] + [[first]] + others[pos:], 'random-gated'))
+    out += held_cases(rng, thorough)
+    out += shape_cases(rng, thorough)
+    out += cancel_cases(rng, thorough)
     nmax = 8 if thorough else 6
     for k in range(0 if thorough else 4):
         out.append(scenario(None, 'random-rounds', rounds=[
@@ -821,6 +1260,20 @@ def search(rng, tier, near):
             out.append(scenario(sib[:pos] + [[inv(c, dur=0, key='A')]] + sib[pos:], 'search'))
     for n in (8, 16, 33, 40, max(36, CPUS + 8), 2 * CPUS + 9):
         out.append(scenario([[shared(inv(['ret'], dur=0, gate=['S']))] for _ in range(n)] + [[inv(['ret'], dur=0, key='S')]], 'search'))
+    # descriptor numbers at / above FD_SETSIZE, and callables whose call signature is not what introspection reports
+    for h in (HELD_HIGH, FD_SETSIZE, 3000):
+        for is_async, form in itertools.product([False, True], ['deco', 'func']):
+            out.append(scenario([[inv(['ret'], dur=1, is_async=is_async, form=form)]], 'search', held=h))
+        out.append(scenario([[inv(['exc'], dur=0)], [inv(['death', 'osExit'], dur=1)], [inv(['ret'], dur=0, size=70000)]], 'search', held=h))
+    out.append(scenario(wide(14), 'search', held=FD_SETSIZE - 16))
+    for how in ('cancel', 'timeout'):
+        for is_async, form in itertools.product([False, True], ['deco', 'func']):
+            out.append(scenario([[inv(['ret'], dur=0, cancel=how, is_async=is_async, form=form)]], 'search'))
+    out.append(scenario([[inv(['ret'], dur=0, cancel='cancel'), inv(['ret'], dur=0)], [inv(['ret'], dur=1)]], 'search'))
+    for sh in SHAPES:
+        for is_async, form in itertools.product([False, True], ['deco', 'func']):
+            if SHAPES[sh][0] or not is_async:
+                out.append(scenario([[inv(['ret'], dur=0, shape=sh, is_async=is_async, form=form)]], 'search'))
     for _ in range(12):
         out.append(scenario([[rand_inv(rng) for _ in range(rng.randint(1, 3))] for _ in range(rng.randint(1, 3))], 'search'))
     return out
@@ -842,7 +1295,7 @@ def run_one(runner, case, env, scale=1):
     x = case['x']
     watchdog = WATCHDOG * scale
     hard = watchdog + (HARD - WATCHDOG)
-    sc = {'invs': x['invs'], 'tasks': x['tasks'], 'rounds': x.get('rounds'), 'blocker': x.get('blocker', 0), 'q': Q, 'watchdog': watchdog,
+    sc = {'invs': x['invs'], 'tasks': x['tasks'], 'rounds': x.get('rounds'), 'held': x.get('held'), 'blocker': x.get('blocker', 0), 'q': Q, 'watchdog': watchdog,
           'control': CONTROL_S if (ticker_judged(x) or any('linger' in v for v in x['invs'])) else 0}
     t0 = time.time()
     dbg = os.environ.get('C17_DEBUG')
@@ -924,7 +1377,7 @@ def run_one(runner, case, env, scale=1):
             'control_starved': control_starved, 'watchdog_s': watchdog, 'order': r['order'],
             'left_after_await': r.get('left_after_await', [0] * n),
             'direct': {k: (v['out'][:2] if v['out'][0] != 'other' else ['other', v['out'][1]]) for k, v in (r.get('direct') or {}).items()},
-            'stall_s': r.get('stall', 0) if lingers else None,
+            'stall_s': r.get('stall', 0) if lingers else None, 'held': r.get('held', 0), 'held_short': bool(r.get('held_short')), 'max_fd': r.get('max_fd'),
             'errors': r['errors'], 'wall_s': round(time.time() - t0, 2)}
 
 
@@ -968,7 +1421,12 @@ def run_impl(cases):
                     return False
             return True
         confirmed = False
-        for k in sorted((k for k in range(len(cases)) if suspect(cases[k], res[k], model[k])), key=lambda k: len(json.dumps(cases[k]['c']))):
+        def few_gated(k):
+            # a hang that needs another invocation's fork to fall into a window shows the more reliably the more siblings there are:
+            # scenarios with only a few gated siblings are tried after everything else
+            ng = sum(1 for v in cases[k]['x']['invs'] if v.get('gate') and not v.get('cancel'))
+            return 1 if 0 < ng < 4 else 0
+        for k in sorted((k for k in range(len(cases)) if suspect(cases[k], res[k], model[k])), key=lambda k: (few_gated(k), len(json.dumps(cases[k]['c'])))):
             if confirmed:
                 break
             confirmed = confirm(k)
@@ -989,6 +1447,24 @@ def run_impl(cases):
 
 
 # ------------------------------------------------------------------------------------------------ verdict
+
+SHAPE_TEXT = {
+    'rename': "pedantic's own @rename_kwargs(Rename(from_='label', to='tag')) around callee(idx, *, tag), called f(i, label='t<i>')",
+    'rename-plain': "@rename_kwargs(label -> tag) around callee(idx, *, tag), called with the declared name f(i, tag='t<i>')",
+    'extra-kw': "functools.wraps decorator `wrapper(*args, suffix='', **kw)` that appends suffix to tag, called f(i, tag='t', suffix='<i>')",
+    'extra-kw-unused': "functools.wraps decorator `wrapper(*args, suffix='', **kw)`, called f(i, tag='t<i>')",
+    'extra-pos': "functools.wraps decorator `wrapper(prefix, *args, **kw)` that prepends prefix to tag, called f('t', i, tag='<i>')",
+    'inject': "functools.wraps decorator that supplies the keyword tag itself, called f(i)",
+    'passthru': "functools.wraps decorator `wrapper(*args, **kw)` that changes nothing, called f(i, tag='t<i>')",
+    'sig-narrow': "callee(idx, *, tag) whose __signature__ attribute claims (idx), called f(i, tag='t<i>')",
+    'sig-wide': "callee(idx, *, tag) whose __signature__ attribute claims (*a, **k), called f(i, tag='t<i>')",
+    'partial': "functools.partial(callee, tag='t<i>'), called f(i)",
+    'method': "bound method run(self, i, *, tag), called f(i, tag='t<i>')",
+    'callable-object': "object with __call__(self, i, *, tag), called f(i, tag='t<i>')",
+    'misfit-kw': "callee(idx, *, tag) called f(i, tag='t<i>', verbose=True): the call itself raises TypeError",
+    'misfit-missing': "callee(idx, *, tag) called f(i): the call itself raises TypeError",
+    'misfit-sig-ok': "callee(idx, *, tag) whose __signature__ claims (*a, **k), called f(i, tag='t<i>', verbose=True): the call itself raises TypeError",
+}
 
 def judge(case, impl, model):
     m, s = model['model'], model['spec']
@@ -1027,24 +1503,51 @@ def judge(case, impl, model):
                      + (f"; the callees of invocations {waiting} end only after it has handed over its result (they wait for an event the caller "
                         f"sets then): it has to end while they are still running" if waiting else '')
                      + (f"; its callee ends only after invocations {x['invs'][i]['gate']} have ended" if x['invs'][i].get('gate') else ''))
-        elif kind[0] == 'spawn' and str(i) in impl.get('direct', {}) and impl['direct'][str(i)][:1] == ['ret'] \
+        elif str(i) in impl.get('direct', {}) and (kind[0] == 'spawn' and impl['direct'][str(i)][:1] == ['ret']
+                                                   or x['invs'][i].get('shape') and impl['direct'][str(i)] in s['allowed'][i]) \
                 and (o != impl['direct'][str(i)] or o not in s['allowed'][i]):
             cls = (impl.get('classes') or [None] * n)[i]
-            pfail = (f"invocation {i} (callee {kind}, starts a process of its own): called directly with the same arguments it returns "
-                     f"{impl['direct'][str(i)]}, awaited through in_subprocess the caller got {o + ([cls] if cls else [])}")
+            what = 'starts a process of its own' if kind[0] == 'spawn' else f"callable of shape {x['invs'][i].get('shape')!r}: {SHAPE_TEXT.get(x['invs'][i].get('shape'), '')}"
+            pfail = (f"invocation {i} (callee {kind}, {what}): called directly with the same arguments it "
+                     f"{'returns' if impl['direct'][str(i)][0] == 'ret' else 'raises'} {impl['direct'][str(i)]}, awaited through "
+                     f"{'@in_subprocess' if x['invs'][i]['form'] == 'deco' else 'calculate_in_subprocess'} the caller got {o + ([cls] if cls else [])}"
+                     + (f"; the process held {impl.get('held')} other descriptors open (highest descriptor number {impl.get('max_fd')})" if impl.get('held') else ''))
+        elif str(i) in impl.get('direct', {}) and x['invs'][i].get('shape') and impl['direct'][str(i)] not in s['allowed'][i]:
+            # the harness's own decorator / call is wrong: called directly the shaped callable does not give the base callee's outcome
+            pfail = None
+            why.append(f"scenario error: invocation {i} of shape {x['invs'][i].get('shape')!r} called directly gives {impl['direct'][str(i)]}, expected {s['allowed'][i]}")
+            corr = False
         elif o not in s['allowed'][i]:
-            pfail = f"invocation {i} (callee {kind}) handed its caller {o}, the property allows {s['allowed'][i]}"
+            cls = (impl.get('classes') or [None] * n)[i]
+            pfail = (f"invocation {i} (callee {kind}" + (f", callable of shape {x['invs'][i]['shape']!r}" if x['invs'][i].get('shape') else '')
+                     + f") handed its caller {o + ([cls] if cls else [])}, the property allows {s['allowed'][i]}"
+                     + (f"; the process held {impl.get('held')} other descriptors open (highest descriptor number {impl.get('max_fd')})" if impl.get('held') else ''))
         elif impl['pid_differs'][i] is False:
             pfail = f"invocation {i} ran in the parent process"
     if not pfail and impl['ticker_ok'] is False and not stalled:
         pfail = (f"the event loop did not run other tasks while an invocation was pending: [invocation, wall s, ticks of a 10 ms ticker, ticks the "
                  f"control ticker got in the callee's {LONG_DUR * Q}+ s] {impl['ticker_bad']} (control: {impl.get('control')})")
+    def cancel_text(i):
+        cn = x['invs'][i].get('cancel')
+        return '' if not cn else (", the awaiting task was cancelled while the callee was working" if cn['how'] == 'cancel' else
+                                  ", awaited with asyncio.wait_for and timed out while the callee was working")
     if not pfail and s['released'] and any(impl.get('left_after_await') or []):
         i = next(i for i, k in enumerate(impl['left_after_await']) if k)
         pfail = (f"invocation {i} (callee {x['invs'][i]['callee']}" + (f", child lingers {x['invs'][i]['linger']} s after its send" if 'linger' in x['invs'][i] else '')
-                 + f") handed over its result while {impl['left_after_await'][i]} child process(es) it is responsible for were still there (running or un-reaped)")
+                 + cancel_text(i)
+                 + f") handed over its {'result' if not x['invs'][i].get('cancel') else 'outcome ' + str(impl['out'][i])} while {impl['left_after_await'][i]} "
+                   f"child process(es) it is responsible for were still there (running or un-reaped)")
+        # the recorded region: the invocation was cancelled, and the model too says that it has not released what it had
+        if x['invs'][i].get('cancel') and impl['out'] == m['out'] and m.get('releasedEach') and m['releasedEach'][i] is False:
+            finding = 'cancelLeavesChildAndPipe'
     if not pfail and impl['released'] is False and s['released']:
         pfail = f"resources left behind after all invocations returned: {impl['resources']}"
+        cancelled = [i for i in range(n) if x['invs'][i].get('cancel')]
+        if cancelled:
+            pfail += f"; invocation(s) {cancelled} were cancelled / timed out while pending"
+            if impl['out'] == m['out'] and m.get('releasedEach') and all(m['releasedEach'][i] is False for i in cancelled) \
+                    and all(r for i, r in enumerate(m['releasedEach']) if i not in cancelled):
+                finding = 'cancelLeavesChildAndPipe'
     if not pfail and stalled:
         # every other clause holds for this scenario; the non-blocking clause does not
         who = [i for i in range(n) if 'linger' in x['invs'][i]]
@@ -1056,12 +1559,18 @@ def judge(case, impl, model):
         if corr and m.get('stall') and impl['stall_s'] <= sum(lingers) + 1.0:
             finding = 'joinBlocksLoopWhileChildLingers'
     kinds = sorted({(k['callee'][0] if k['callee'][0] != 'death' else k['callee'][1]) for k in x['invs']})
+    shapes = sorted({k['shape'] for k in x['invs'] if k.get('shape')})
+    cancels = sorted({k['cancel']['how'] for k in x['invs'] if k.get('cancel')})
+    held = max(x.get('held') or [0])
     seq = any(k['pred'] is not None for k in x['invs'])
     paths = sorted(set(m.get('path', [])))
     return {'corr': corr, 'pfail': pfail, 'finding': finding,
-            'nontrivial': n > 1 or x['invs'][0]['callee'][0] != 'ret',
+            'nontrivial': n > 1 or x['invs'][0]['callee'][0] != 'ret' or bool(x['invs'][0].get('cancel')),
             'tag': f"n={n}{'/seq' if seq else ''}{'/gated' if any(k.get('gate') for k in x['invs']) else ''}{'/loops=%d' % len(x['rounds']) if x.get('rounds') else ''}"
-                   f"{'/wide' if any(len(r) > CPUS for r in (x.get('rounds') or [x['tasks']])) else ''}/{'+'.join(kinds)}/{'+'.join(paths)}",
+                   f"{'/wide' if any(len(r) > CPUS for r in (x.get('rounds') or [x['tasks']])) else ''}"
+                   f"{'/held>=FD_SETSIZE' if held >= FD_SETSIZE else '/held' if held else ''}{'/shapes=' + '+'.join(shapes) if shapes else ''}"
+                   f"{'/cancelled-by=' + '+'.join(cancels) if cancels else ''}"
+                   f"/{'+'.join(kinds)}/{'+'.join(paths)}",
             'why': '; '.join(why)}
 
 
@@ -1075,7 +1584,16 @@ def extra_coverage(results):
             stalls.append(i['stall_s'])
         direct += len(i.get('direct') or {})
     rates = [i['control']['rate'] for (c, i, m, j) in results if i.get('control')]
-    return {'suspected_failures_rerun_alone': sum(1 for (c, i, m, j) in results if i.get('confirm_runs')),
+    return {'cancelled_invocations (task.cancel / wait_for timeout)': [sum(1 for (c, i, m, j) in results for v in c['x']['invs'] if (v.get('cancel') or {}).get('how') == h)
+                                                                      for h in ('cancel', 'timeout')],
+            'scenarios_with_held_descriptors': sum(1 for (c, i, m, j) in results if c['x'].get('held')),
+            'scenarios_whose_descriptor_numbers_reached_FD_SETSIZE': sum(1 for (c, i, m, j) in results if (i.get('max_fd') or 0) >= FD_SETSIZE),
+            'scenarios_that_could_not_hold_the_requested_descriptors (RLIMIT_NOFILE)': sum(1 for (c, i, m, j) in results if i.get('held_short')),
+            'highest_descriptor_number_seen': max([i.get('max_fd') or 0 for (c, i, m, j) in results] or [0]),
+            'invocations_with_a_callable_whose_signature_differs_from_what_introspection_reports': sum(
+                1 for (c, i, m, j) in results for v in c['x']['invs'] if v.get('shape') in SHAPES_MISMATCH),
+            'callee_shapes_exercised': sorted({v.get('shape', 'plain') for (c, i, m, j) in results for v in c['x']['invs']}),
+            'suspected_failures_rerun_alone': sum(1 for (c, i, m, j) in results if i.get('confirm_runs')),
             'suspicions_not_reproduced_alone (scheduling noise)': sum(1 for (c, i, m, j) in results if i.get('suspicion_not_reproduced')),
             'suspicions_reproduced_in_every_run_alone': sum(1 for (c, i, m, j) in results if i.get('confirm_runs') == CONFIRM_RUNS and not i.get('suspicion_not_reproduced')),
             'confirmation_runs_total': sum(i.get('confirm_runs', 0) for (c, i, m, j) in results),
